@@ -209,6 +209,11 @@ def run_part(chk, wd, runner):
     for name, data, doc in gen:
         if b"Extensions" in doc.objects[1]:
             continue                 # the writer rewrites /Extensions /ADBE: outside the model's domain (as in C01)
+        if any(isinstance(o, dict) and b"ByteRange" in o and b"Contents" in o for o in doc.objects.values()):
+            # a signature's /Contents is forced into hex form (f_hex_string), which the shared printer does not model: random
+            # signature dictionaries are outside the model's domain here (structure_doc holds the signature variants whose
+            # /Contents print in hex form anyway); found by the thorough tier (xs_bgen18: model 11 bytes shorter)
+            continue
         docs.append((name, doc, None))
     bx = []
     for k, (name, doc, E) in enumerate(docs):
